@@ -1,25 +1,30 @@
-"""native replay for C41: subscription ledger of a monitored fake signal across suspend / restore / engine suspension"""
+"""native replay for C41: subscription ledger of monitored fake signals and the events their updates produce, on the real RunBundler
+(histories of operations) and on the real RunEngine (suspension handlers)"""
 import asyncio
+import collections
+import logging
 
 from bluesky import RunEngine
-from bluesky.utils import Msg
+from bluesky.bundlers import RunBundler
+from bluesky.utils import IllegalMessageSequence, Msg
 
 from .bundler import _bundler
 
 
 class Sig:
     parent = None
-    name = "sig"
     hints = {"fields": ["sig"]}
 
-    def __init__(self):
+    def __init__(self, name="sig"):
+        self.name = name
         self.cbs = []
+        self.value = 1.0
 
     def read(self):
-        return {"sig": {"value": 1.0, "timestamp": 1.0}}
+        return {self.name: {"value": self.value, "timestamp": 1.0}}
 
     def describe(self):
-        return {"sig": {"dtype": "number", "shape": [], "source": "s"}}
+        return {self.name: {"dtype": "number", "shape": [], "source": "s"}}
 
     def read_configuration(self):
         return {}
@@ -33,50 +38,178 @@ class Sig:
     def clear_sub(self, cb):
         self.cbs = [c for c in self.cbs if c is not cb]
 
+    def update(self):
+        """the signal changes: every callback subscribed at this moment is called"""
+        self.value += 1
+        for cb in list(self.cbs):
+            cb()
+
+
+def history(model, info, art):
+    """the operations of the counter-example, in order, on a real RunBundler with two monitored fake signals; after every operation the
+    clause of the failed obligation is evaluated: ledger against the ghost model / events per update / nothing after the stop document /
+    rejections"""
+    ops = list(info.get("ops") or [])
+    tag = art.get("obligation", "")
+    sigs = {"sig": Sig("sig"), "sig2": Sig("sig2")}
+    out = []
+    problems = []
+
+    def n_events():
+        return len([1 for n, d in out if n == "event"])
+
+    async def emit(name, doc):
+        out.append((name.name, doc))
+        if name.name == "stop":
+            for s in sigs.values():               # updates arriving while the stop document is being dispatched
+                s.update()
+
+    def emit_sync(name, doc):
+        out.append((name.name, doc))
+    b = RunBundler({}, False, emit, emit_sync, logging.getLogger("replay"), strict_pre_declare=False)
+    g = {"open": True, "suspended": False, "mon": {"sig": False, "sig2": False}}
+
+    def live(n):
+        return g["open"] and g["mon"][n] and not g["suspended"]
+
+    async def go():
+        await b.open_run(Msg("open_run"))
+        for i, op in enumerate(ops):
+            want = "ok"
+            try:
+                if op == "suspend":
+                    g["suspended"] = True
+                    await b.suspend_monitors()
+                elif op == "restore":
+                    g["suspended"] = False
+                    await b.restore_monitors()
+                elif op == "unmonitor":
+                    want = "ok" if g["mon"]["sig"] else "raise"
+                    g["mon"]["sig"] = False
+                    await b.unmonitor(Msg("unmonitor", sigs["sig"]))
+                elif op in ("monitor", "monitor2"):
+                    n = "sig" if op == "monitor" else "sig2"
+                    want = "raise" if g["mon"][n] else "ok"
+                    g["mon"][n] = True
+                    await b.monitor(Msg("monitor", sigs[n], name="mon_" + n))
+                elif op == "close_run":
+                    want = "ok" if g["open"] else "raise"
+                    g["open"] = False
+                    g["mon"] = {"sig": False, "sig2": False}
+                    await b.close_run(Msg("close_run"))
+                else:
+                    g["mon"] = {"sig": False, "sig2": False}
+                    b.clear_monitors()
+                got = "ok"
+            except IllegalMessageSequence:
+                got = "raise"
+            except Exception as e:
+                got = f"{type(e).__name__}: {e}"
+            where = f"after {ops[:i + 1]}"
+            if "#raises[" in tag and got != want:
+                problems.append(f"{where}: outcome {got}, the statement wants {want}")
+            if "#invariant[" in tag:
+                for n, s in sigs.items():
+                    if len(s.cbs) != (1 if live(n) else 0) or (s in b._monitor_params) != g["mon"][n]:
+                        problems.append(f"{where}: {n} carries {len(s.cbs)} engine subscription(s), remembered={s in b._monitor_params}; "
+                                        f"model: live={live(n)}, monitored={g['mon'][n]}")
+            for n, s in sigs.items():
+                n0 = n_events()
+                s.update()
+                if "emit_event#ensures[" in tag and n_events() - n0 != (1 if live(n) else 0):
+                    problems.append(f"{where}: an update of {n} produced {n_events() - n0} event(s); subscription live in the model: {live(n)}")
+            names = [n for n, d in out]
+            if "close_run#ensures[subscriptions are removed before the stop document" in tag and "stop" in names and "event" in names[names.index("stop"):]:
+                problems.append(f"{where}: documents {names}: an event follows the stop document")
+                break
+    asyncio.run(go())
+    return ("confirmed" if problems else "contradicted"), "; ".join(problems[:4]) or f"operations {ops}: ledger, events and rejections as the statement wants"
+
 
 def suspension(model, info, art):
+    """bundler level (suspend / restore scripts, monitor / unmonitor / close_run / clear_monitors post-states)"""
     problems = []
     script = info.get("script") or ["suspend", "suspend", "restore", "restore"]
-    sig = Sig()
+    tag = art.get("obligation", "")
+    sig, sig2 = Sig("sig"), Sig("sig2")
     bd, out = _bundler(False)
 
     async def go():
         await bd.open_run(Msg("open_run"))
         await bd.monitor(Msg("monitor", sig, name="mon"))
-        for step in script:
-            await (bd.suspend_monitors() if step == "suspend" else bd.restore_monitors())
-            want = 0 if step == "suspend" else 1
-            if len(sig.cbs) != want:
-                problems.append(f"after {step}: {len(sig.cbs)} subscription(s)")
+        try:
+            await bd.monitor(Msg("monitor", sig, name="mon_again"))
+            problems.append("a second monitor of the same object was accepted")
+        except IllegalMessageSequence:
+            pass
+        if len(sig.cbs) != 1:
+            problems.append(f"after monitor: {len(sig.cbs)} subscription(s)")
+        await bd.monitor(Msg("monitor", sig2, name="mon2"))
+        if ".unmonitor#" in tag:
+            await bd.unmonitor(Msg("unmonitor", sig))
+            if sig.cbs or sig in bd._monitor_params or len(sig2.cbs) != 1:
+                problems.append(f"after unmonitor: {len(sig.cbs)} subscription(s) on the object, {len(sig2.cbs)} on the other, remembered={sig in bd._monitor_params}")
+            try:
+                await bd.unmonitor(Msg("unmonitor", sig))
+                problems.append("unmonitor of an object that is not monitored was accepted")
+            except IllegalMessageSequence:
+                pass
+        elif ".close_run#" in tag or ".clear_monitors#" in tag:
+            for suspended in (False, True):
+                b2, _ = _bundler(False)
+                s1, s2 = Sig("sig"), Sig("sig2")
+                await b2.open_run(Msg("open_run"))
+                await b2.monitor(Msg("monitor", s1, name="mon"))
+                await b2.monitor(Msg("monitor", s2, name="mon2"))
+                if suspended:
+                    await b2.suspend_monitors()
+                if ".close_run#" in tag:
+                    await b2.close_run(Msg("close_run"))
+                else:
+                    b2.clear_monitors()
+                await b2.restore_monitors()
+                if s1.cbs or s2.cbs or b2._monitor_params:
+                    problems.append(f"suspended={suspended}: {len(s1.cbs)} + {len(s2.cbs)} subscription(s) left, {len(b2._monitor_params)} monitor(s) remembered")
+        else:
+            for step in script:
+                await (bd.suspend_monitors() if step == "suspend" else bd.restore_monitors())
+                want = 0 if step == "suspend" else 1
+                if len(sig.cbs) != want or len(sig2.cbs) != want:
+                    problems.append(f"after {step}: {len(sig.cbs)} / {len(sig2.cbs)} subscription(s)")
     asyncio.run(go())
-    # engine level: a suspension must silence the monitor until release
+    return ("confirmed" if problems else "contradicted"), "; ".join(problems) or f"subscriptions as documented (script {script})"
+
+
+def engine_suspension(model, info, art):
+    """RunEngine._start_suspender / _resume on a real engine holding two open runs, each with a live monitor (the state after a resume from a
+    pause, say): the handler itself must leave no subscription while the suspension lasts, and _resume exactly one per monitor"""
+    n = 2 if any(str(v) == "2" for k, v in (art.get("decisions") or []) if k == "overlapping suspensions") else 1
     RE = RunEngine(context_managers=[])
-    sig2 = Sig()
-    seen = []
+    sig, sig2 = Sig("sig"), Sig("sig2")
+    problems = []
+    tag = art.get("obligation", "")
 
-    def plan():
-        yield Msg("open_run")
-        yield Msg("monitor", sig2, name="mon")
-        yield Msg("checkpoint")
-        fut_holder = {}
-
-        async def release():
-            await asyncio.sleep(0.05)
-            seen.append(("during suspension", len(sig2.cbs)))
-        RE.request_suspend(release)
-        yield Msg("sleep", None, 0.2)
-        seen.append(("after release", len(sig2.cbs)))
-        yield Msg("close_run")
-    try:
-        RE(plan())
-    except Exception as e:
-        problems.append(f"engine scenario raised {type(e).__name__}: {e}")
-    for label, n in seen:
-        if (label == "during suspension" and n != 0) or (label == "after release" and n != 1):
-            problems.append(f"{label}: {n} subscription(s)")
-    if not seen:
-        problems.append("engine scenario did not run")
-    return ("confirmed" if problems else "contradicted"), "; ".join(problems) or f"subscriptions as documented ({seen})"
+    async def go():
+        await RE._open_run(Msg("open_run"))
+        await RE._open_run(Msg("open_run", run="k"))
+        await RE._monitor(Msg("monitor", sig, name="mon"))
+        await RE._monitor(Msg("monitor", sig2, name="mon2", run="k"))
+        RE._plan_stack = collections.deque([iter(())])
+        RE._response_stack = collections.deque([None])
+        RE._msg_cache = collections.deque()
+        fut = asyncio.Event().wait
+        for _ in range(n):
+            await RE._start_suspender(Msg("_start_suspender", None, None, None, "why", fut))
+        if "_start_suspender#" in tag and (sig.cbs or sig2.cbs):
+            problems.append(f"after {n} x _start_suspender with live monitors: {len(sig.cbs)} / {len(sig2.cbs)} engine subscription(s) on the monitored signals")
+        for _ in range(n):
+            await RE._resume(Msg("_resume_from_suspender"))
+        if "_resume#" in tag and (len(sig.cbs), len(sig2.cbs)) != (1, 1):
+            problems.append(f"after {n} x _start_suspender and {n} x _resume: {len(sig.cbs)} / {len(sig2.cbs)} engine subscription(s)")
+        for bd in list(RE._run_bundlers.values()):
+            bd.clear_monitors()
+    asyncio.run_coroutine_threadsafe(go(), RE.loop).result(30)
+    return ("confirmed" if problems else "contradicted"), "; ".join(problems) or f"{n} suspension(s): no subscription while suspended, one after release"
 
 
 # ------------------------------------------------------------------------------------------------ C06 (T1 obligations)
